@@ -8,9 +8,9 @@ def _gens(quick_num, thorough_num):
         n = quick_num if tier == "quick" else thorough_num
         depth = 6 if tier == "quick" else 9
         out = []
-        for i, x in enumerate("ABCD"):
+        for i, x in enumerate("ABCDE"):
             out.append(dict(mode="sim", spec="NodeGen.tla", cfg="NodeGenSim%s.cfg" % x, depth=depth, num=n,
-                            max=(25 if tier == "quick" else 500), salt=i, name="walks" + x, timeout=900))
+                            max=(20 if tier == "quick" else 400), salt=i, name="walks" + x, timeout=900))
         return out
     return dict(quick=g("quick"), thorough=g("thorough"))
 
@@ -115,6 +115,34 @@ def _entry(pid, text, rule, nontrivial, corrupt, design_ref):
     CHECKS[pid] = d
 
 
+def _cor_ls13(evs):
+    for i, e in enumerate(evs):
+        if e.get("op") not in ("reset", "crash") and i > 0 and evs[i - 1].get("op") != "crash":
+            e["st"]["gcsize"] += 1
+            return i
+    return None
+
+
+def _cor_ls12(evs):
+    for i, e in enumerate(evs):
+        if e.get("op") == "gc":
+            e["st"]["pin"].append(["B", 7])
+            return i
+    return None
+
+
+def _lscore_also(cor, qn=40, tn=300):
+    """second pipeline: the same property judged on histories of the store's own API (multi-address Set calls, pinning
+    puts under a file context, collection runs with a chunk-info stub), which the node-level driver cannot produce"""
+    return [dict(modules=["lscore"], driver="lscoredrv", judge=dict(spec="LSCoreTrace.tla", cfg="LSCoreTrace.cfg"), design=[],
+                 gen=dict(quick=[dict(mode="sim", spec="LSCoreGen.tla", cfg="LSCoreGenSim.cfg", depth=8, num=qn, max=400, name="store-api walks",
+                                      env={"VERIF_LSMODE": "c14"})],
+                          thorough=[dict(mode="sim", spec="LSCoreGen.tla", cfg="LSCoreGenSim.cfg", depth=10, num=tn, max=4000, name="store-api walks",
+                                         env={"VERIF_LSMODE": "c14"})]),
+                 corrupt=cor, selftest_scenarios=100000,
+                 nontrivial=lambda s: sum(1 for o in s["ops"] if o["op"] in ("put", "set", "gc")) >= 2)]
+
+
 def _ops(s):
     return [o["op"] for o in s["ops"]]
 
@@ -128,11 +156,13 @@ _entry("C12", "the design model satisfies 'a collection deletes no pinned/upload
        _RULE + "non-trivial = a gc after at least one download and one upload or pin",
        lambda s: "gc" in _ops(s) and "download" in _ops(s) and any(o in _ops(s) for o in ("upload", "pin", "pinsvc")),
        _cor_c12, "5 (C12)")
+CHECKS["C12"]["also"] = _lscore_also(_cor_ls12)
 _entry("C13", "TLC checks counter = recorded total and post-collection bound in the design; every dump of the real store (after each operation, "
        "after restart, after quiesced collection) is judged against the same equalities",
        _RULE + "non-trivial = contains a download and a pin/unpin/delete/gc/restart",
        lambda s: "download" in _ops(s) and any(o in _ops(s) for o in ("pin", "unpin", "pinsvc", "unpinsvc", "delete", "gc", "restart")),
        _cor_c13, "5 (C13)")
+CHECKS["C13"]["also"] = _lscore_also(_cor_ls13)
 _entry("C15", "TLC checks pin counters = sum of the pins of pinned files in the design (so pin;unpin is the identity, repeats are no-ops); "
        "real pin-index dumps around every pin/unpin (API handlers and pinning.Service) are judged for marking, idempotence and inversion",
        _RULE + "non-trivial = contains a pin-type and an unpin-type operation or a repeated pin",
